@@ -150,31 +150,19 @@ func ParseURI(raw string) (*URI, error) { //nolint:gocognit,cyclop
 	}
 
 	var rawPort string
-	if uri.Host, rawPort, err = net.SplitHostPort(rawParts.Opaque); err != nil { //nolint:nestif
+	if uri.Host, rawPort, err = net.SplitHostPort(rawParts.Opaque); err != nil {
 		var e *net.AddrError
-		if errors.As(err, &e) {
-			if e.Err == "missing port in address" {
-				nextRawURL := uri.Scheme.String() + ":" + rawParts.Opaque
-				switch {
-				case uri.Scheme == SchemeTypeSTUN || uri.Scheme == SchemeTypeTURN:
-					nextRawURL += ":3478"
-					if rawParts.RawQuery != "" {
-						nextRawURL += "?" + rawParts.RawQuery
-					}
-
-					return ParseURI(nextRawURL)
-				case uri.Scheme == SchemeTypeSTUNS || uri.Scheme == SchemeTypeTURNS:
-					nextRawURL += ":5349"
-					if rawParts.RawQuery != "" {
-						nextRawURL += "?" + rawParts.RawQuery
-					}
-
-					return ParseURI(nextRawURL)
-				}
+		if errors.As(err, &e) && e.Err == "missing port in address" {
+			// No port given: retry once with the scheme's default port.
+			defaultPort := ":3478"
+			if uri.Scheme == SchemeTypeSTUNS || uri.Scheme == SchemeTypeTURNS {
+				defaultPort = ":5349"
 			}
+			uri.Host, rawPort, err = net.SplitHostPort(rawParts.Opaque + defaultPort)
 		}
-
-		return nil, err
+		if err != nil {
+			return nil, err
+		}
 	}
 
 	if uri.Host == "" {
